@@ -1409,6 +1409,17 @@ class PEval:
                 src_, f_ = a0, args[1]
                 if fname == "map":
                     return Struct("#Lazy", {"head": [], "gen": Native(lambda: self.apply(f_, [self.call_named("core::iter::traits::iterator::Iterator::next", "next", [src_], None, depth).fields.get("0")], depth + 1))})
+                if fname == "filter":
+                    def next_kept():
+                        for _ in range(5000):
+                            x_ = self.call_named("core::iter::traits::iterator::Iterator::next", "next", [src_], None, depth).fields.get("0")
+                            t_ = self.truth(self.apply(f_, [x_], depth + 1))
+                            if t_ is UNKNOWN:
+                                return UNKNOWN
+                            if t_:
+                                return x_
+                        raise OutOfFuel()
+                    return Struct("#Lazy", {"head": [], "gen": Native(next_kept)})
             return self.unknown("unbounded sequence .%s" % fname)
         if isinstance(a0, Struct) and a0.adt == "#Repeat":
             import copy as _copy
@@ -1417,6 +1428,17 @@ class PEval:
             if fname == "next" and len(args) == 1:
                 return some(_copy.deepcopy(a0.fields["v"]))
             return self.unknown("unbounded repeat(..).%s" % fname)
+        if isinstance(a0, Struct) and a0.adt == "core::ops::range::RangeFrom" and isinstance(a0.fields.get("start"), int) and fname in ("map", "filter", "take", "next", "into_iter", "step_by", "skip") and "iter" in path:
+            # an unbounded range under an adaptor: a lazy sequence counting upwards
+            state_ = {"i": a0.fields["start"]}
+
+            def count_(state_=state_):
+                state_["i"] += 1
+                return state_["i"] - 1
+            lazy_ = Struct("#Lazy", {"head": [], "gen": Native(count_)})
+            if fname == "into_iter":
+                return lazy_
+            return self.call_named(path, fname, [lazy_] + args[1:], node, depth)
         if isinstance(a0, Struct) and a0.adt == "core::ops::range::RangeFrom" and isinstance(a0.fields.get("start"), int) and fname in ("find", "position", "find_map") and len(args) == 2:
             # an unbounded range: search upwards (bounded by the evaluator's fuel)
             i_ = a0.fields["start"]
